@@ -41,6 +41,12 @@ def make(kind):
 
         def bump(self):
             self.st += 1
+    class InheritsCall(CallableThing):      # callable only through the __call__ of its base class
+        pass
+    if kind == "icinst":
+        return InheritsCall(0)
+    if kind == "icls":
+        return InheritsCall
     if kind == "cinst":
         return CallableThing(0)
     if kind == "inst":
@@ -52,7 +58,7 @@ def make(kind):
     raise AssertionError(kind)
 
 
-STATEFUL = {"closure", "cinst", "inst", "ccls_inst", "cls_inst"}
+STATEFUL = {"closure", "cinst", "inst", "ccls_inst", "cls_inst", "icinst", "icls_inst"}
 
 
 def project(h, kind):
@@ -91,7 +97,7 @@ def run(case):
                 orig = wrap_non_picklable_objects(orig, keep_wrapper=bool(op[1]))
             elif op[0] == "instantiate":
                 orig = orig(op[1])
-                okind = "ccls_inst" if kind == "ccls" else "cls_inst"
+                okind = {"ccls": "ccls_inst", "icls": "icls_inst"}.get(kind, "cls_inst")
             elif op[0] == "roundtrip":
                 src = orig if op[1] == "orig" else copy
                 ck = okind if op[1] == "orig" else ckind
